@@ -90,7 +90,9 @@ func BeforeSend(c interface{}) {
 	if s == nil {
 		return
 	}
-	s.point(op{kind: opSend, obj: c, what: fmt.Sprintf("send %#x", chanKey(c)&0xffff)})
+	if s.point(op{kind: opSend, obj: c, what: fmt.Sprintf("send %#x", chanKey(c)&0xffff)}) == 2 {
+		return // released by a receiver: do the real send, then park in AfterSend
+	}
 	t := s.cur
 	cs := s.chanState(c)
 	if cs.closed {
@@ -148,7 +150,9 @@ func BeforeRecv(c interface{}) {
 	if s == nil {
 		return
 	}
-	s.point(op{kind: opRecv, obj: c, what: fmt.Sprintf("recv %#x", chanKey(c)&0xffff)})
+	if s.point(op{kind: opRecv, obj: c, what: fmt.Sprintf("recv %#x", chanKey(c)&0xffff)}) == 2 {
+		return // released by a sender: do the real receive, then park in AfterRecv
+	}
 	s.afterRecvChosen(c)
 }
 
